@@ -109,6 +109,8 @@ pub struct Func {
     pub declared_twice: bool,
     /// which member by-value unions are read through
     pub union_member: usize,
+    /// declared and defined with `__attribute__((ms_abi))` (bound as `extern "win64"`)
+    pub ms_abi: bool,
 }
 
 #[derive(Clone, Debug)]
@@ -707,13 +709,18 @@ pub fn gen_lib(r: &mut Rng, cfg: &GenCfg) -> Lib {
             let last = params.len() - 1;
             params[last].1 = Param::Val(Ty::Sc(SC_INT));
         }
-        lib.funcs.push(Func { name, ret, params, tail, noreturn, inline, is_static, declared_twice: r.chance(1, 6), union_member: r.below(4) as usize });
+        // ms_abi only on signatures of plain scalars / pointers to scalars (the point is the ABI keyword of the
+        // extern block, not win64 aggregate passing; i128 and long double differ between clang and rustc there)
+        let simple = |t: &Ty| match t { Ty::Sc(i) => SCALARS[*i].bits <= 64, Ty::Ptr(_, q) => matches!(**q, Ty::Sc(_) | Ty::Void), _ => false };
+        let ms_abi = tail.is_none() && !inline && !is_static && ret.as_ref().map_or(true, |t| simple(t))
+            && params.iter().all(|(_, p)| matches!(p, Param::Val(t) if simple(t))) && r.chance(1, 3);
+        lib.funcs.push(Func { name, ret, params, tail, noreturn, inline, is_static, declared_twice: r.chance(1, 6), union_member: r.below(4) as usize, ms_abi });
     }
     // one noreturn function per library (called last)
     if r.chance(1, 2) {
         lib.funcs.push(Func { name: format!("c04_nr{}", r.below(100)), ret: if r.chance(1, 2) { None } else { Some(Ty::Sc(SC_INT)) },
             params: vec![(Some("a".into()), Param::Val(Ty::Sc(pick_scalar(r)))), (None, Param::Val(Ty::Sc(pick_scalar(r))))],
-            tail: None, noreturn: true, inline: false, is_static: false, declared_twice: false, union_member: 0 });
+            tail: None, noreturn: true, inline: false, is_static: false, declared_twice: false, union_member: 0, ms_abi: false });
     }
     // globals
     for n in 0..r.range(1, 8) as usize {
@@ -772,7 +779,7 @@ impl Lib {
         }).collect();
         if f.tail.is_some() { ps.push("...".into()); }
         let r = f.ret.as_ref().map_or("void".to_string(), |t| self.c_ty(t));
-        format!("{} {}({})", r, f.name, if ps.is_empty() { "void".into() } else { ps.join(", ") })
+        format!("{}{} {}({})", if f.ms_abi { "__attribute__((ms_abi)) " } else { "" }, r, f.name, if ps.is_empty() { "void".into() } else { ps.join(", ") })
     }
 
     pub fn header(&self) -> String {
